@@ -104,6 +104,9 @@ def run(prop, tier, seed):
         for o in ops:
             if o['op'] == 'iter':
                 o['a']['sorted'] = 0
+            # another client holds the write lock of one shard for a moment while an aggregate removal runs
+            if shards > 1 and o['op'] in ('clear', 'expire', 'evict', 'cull') and rng.random() < 0.5:
+                o['a']['busy'] = [rng.randrange(1, shards), rng.choice([1, 1, 2])]
         tid += 1
         jobs.append((cfg, ops, seed + i, tid))
     traces = pmap(_run, jobs, procs=14)
